@@ -1,4 +1,6 @@
 import Smpl.Model.AkaiTool
+import Smpl.Model.Container
+import Smpl.Model.Cdda
 import Smpl.Drv.Util
 import Smpl.Drv.Transcode
 namespace Smpl.Drv
@@ -13,6 +15,41 @@ def showExported (e : Exported) : String :=
   else
     let bs := e.wav.map (·.getD 0)
     s!"{charsToHex e.path} fnv {bs.length} {fnv64 bs}"
+
+/-- Python text mode: universal newlines, then `readlines()` (each line keeps its "\n"). -/
+def textLines (bs : List Nat) : List (List Char) :=
+  let rec norm : List Nat → List Char
+    | 13 :: 10 :: rest => '\n' :: norm rest
+    | 13 :: rest => '\n' :: norm rest
+    | b :: rest => Char.ofNat b :: norm rest
+    | [] => []
+  let rec split (cur : List Char) (acc : List (List Char)) : List Char → List (List Char)
+    | [] => if cur.isEmpty then acc.reverse else (cur.reverse :: acc).reverse
+    | '\n' :: rest => split [] (('\n' :: cur).reverse :: acc) rest
+    | c :: rest => split (c :: cur) acc rest
+  split [] [] (norm bs)
+
+inductive Opened where
+  | image (view : List Nat)            -- a sampler image (after unwrapping)
+  | cdda
+  | unreadable (msg : String)
+
+/-- `determine_image_type(path)`: ASCII text that parses as a cue sheet is followed (data track: the
+bin file, unwrapped; all audio: CDDA); anything else is a binary image, unwrapped. -/
+def openImage (file : String) : IO Opened := do
+  let data := (← IO.FS.readBinFile file).toList.map (·.toNat)
+  if data.all (· < 128) then
+    match Smpl.Cue.parse (textLines data) with
+    | .ok cue =>
+      match Smpl.Cdda.detect cue with
+      | .cdda => pure .cdda
+      | .dataTrack =>
+        let dir := (System.FilePath.mk file).parent.getD (System.FilePath.mk ".")
+        let bin := dir / String.ofList cue.binName
+        let bdata := (← IO.FS.readBinFile bin).toList.map (·.toNat)
+        pure (.image (Smpl.Container.view bdata))
+    | .error _ => pure (.image (Smpl.Container.view data))
+  else pure (.image (Smpl.Container.view data))
 
 /-- programs are recognised by a separate model; until it is linked in, a program parses iff … -/
 def akaiOp (programOk : List Nat → Bool) (toks : List String) : IO String := do
@@ -35,8 +72,11 @@ def akaiOp (programOk : List Nat → Bool) (toks : List String) : IO String := d
     match pathHexes.mapM hexToChars with
     | none => pure "bad-op"
     | some paths =>
-      let data ← IO.FS.readBinFile file
-      match tree (data.toList.map (·.toNat)) programOk with
+      match ← openImage file with
+      | .cdda => pure "cdda"
+      | .unreadable m => pure ("unreadable " ++ m)
+      | .image view =>
+      match tree view programOk with
       | .error e => pure ("err " ++ toString e)
       | .ok parts =>
         let ex := match exportOf parts with
